@@ -3,8 +3,8 @@
 import json, os, sys
 VERIF = os.path.dirname(os.path.dirname(os.path.abspath(__file__)))
 sys.path.insert(0, os.path.join(VERIF, "lib"))
-from registry import CHECKS
-from manifest_meta import META, PENDING, HOOK_COMMITS
+from registry import CHECKS, METAS as META
+from manifest_meta import PENDING, HOOK_COMMITS
 
 ALL = ["C%02d" % i for i in range(1, 21)]
 checks = []
